@@ -20,6 +20,7 @@ THEOREMS = [
     "c20_launch_exact",
     "c20_runner_launch_exact",
     "c20_runner_one_launch_per_name",
+    "c20_runner_mixed_names",
     "c20_errors_classified",
     "c20_errors_surface",
     "c20_extra_members_ignored",
@@ -255,6 +256,36 @@ def gen_bare_doc(rng):
     return {"mcpServers": servers}, {"name": BARE, "dirs": dirs, "host": host}
 
 
+GHOSTS = ["nosuch", "ghost", "", "mcpServers", "Alpha ", "0"]
+
+
+def mixed_runner_cases(rng, doc, n=3):
+    """the multi-server runner asked for names of which SOME cannot be loaded (not in the document), in every
+    position: failing first / in the middle / last, two in a row, the same failing name twice.  Each loadable name
+    is launched exactly once, a failing name launches nothing (in particular not somebody else's server)."""
+    good = list(doc["mcpServers"])
+    ghosts = [g for g in GHOSTS if g not in good]
+    out = []
+    patterns = ["GF", "FG", "GFG", "FGF", "GFF", "FFG", "GFGF", "FGGF", "GGF", "FFGG"]
+    for pat in rng.sample(patterns, min(n, len(patterns))):
+        gs = rng.sample(good, min(len(good), pat.count("G")))
+        names, gi = [], 0
+        f1 = rng.choice(ghosts)
+        f2 = rng.choice([f1] + ghosts)                      # the same failing name again, or another one
+        fs = [f1, f2]
+        fi = 0
+        for ch in pat:
+            if ch == "G":
+                if gi < len(gs):
+                    names.append(gs[gi])
+                    gi += 1
+            else:
+                names.append(fs[fi % 2])
+                fi += 1
+        out.append({"entry": "runner", "file": "ok", "doc": doc, "names": names, "expect": "valid", "mixed": pat})
+    return out
+
+
 def valid_cases(rng, doc, bare=None):
     """the three entry points on one document"""
     if bare is not None:
@@ -354,7 +385,9 @@ def expected_launches(case, default_env):
     command does not exist in its own environment cannot be launched and is left out"""
     out = []
     for n in case["names"]:
-        sc = case["doc"]["mcpServers"][n]
+        sc = case["doc"]["mcpServers"].get(n)
+        if not isinstance(sc, dict):
+            continue                                   # a name the document does not have: nothing to launch for it
         env = sc.get("env") or default_env
         cmd = executed(case, sc, env)
         if cmd is not None:
@@ -456,6 +489,8 @@ class Entry(Suite):
         for lg in ("names", "modules", "transport", "asyncgen"):
             out.append({"entry": "loader", "file": "ok", "doc": d1, "names": ["b"], "expect": "valid", "legacy": lg})
         out.append({"entry": "runner", "file": "ok", "doc": d3, "names": ["p", "q"], "expect": "valid", "legacy": "names"})
+        for names in (["p", "nosuch"], ["nosuch", "p"], ["p", "nosuch", "q"], ["nosuch", "p", "nosuch", "q", "ghost"], ["p", "nosuch", "nosuch"]):
+            out.append({"entry": "runner", "file": "ok", "doc": d3, "names": names, "expect": "valid", "mixed": "directed"})
         for cf in ("interactive_mode", "chat_run", "raises"):
             out.append({"entry": "runner", "file": "ok", "doc": d3, "names": ["q", "p", "r"], "expect": "valid", "cmdfunc": cf,
                         "user_specified": ["p"], "repeat": 2 if cf == "chat_run" else 1})
@@ -470,6 +505,8 @@ class Entry(Suite):
                 continue
             doc = gen_doc(rng)
             out += [decorate(rng, c) for c in valid_cases(rng, doc)]
+            if i % 3 == 0:
+                out += [decorate(rng, c) for c in mixed_runner_cases(rng, doc, 2 if budget == "quick" else 6)]
             if budget == "quick":
                 if i < 6:
                     out += [decorate(rng, c) for c in malformed_cases(rng, doc)]
@@ -592,6 +629,11 @@ class Entry(Suite):
                     return (f"wrong-env/{e}", f"{e}: child environment differs from the configured one "
                             f"(keys seen {sorted(g['env'])}, wanted {sorted(w['env'])})", {"launches": want})
                 return (f"extra-launch/{e}", f"{e}: launches {[l['cmd'] for l in rest_g]} not asked for", {"launches": want})
+            if e == "runner" and isinstance(o.get("ret"), dict) and o["ret"].get("n") is not None \
+                    and case.get("cmdfunc", "plain") != "never" and case.get("repeat", 1) == 1:
+                if o["ret"]["n"] != len(want):
+                    return (f"wrong-connection-count/{e}", f"{e}: the command function was handed {o['ret']['n']} connection(s) "
+                            f"for {len(want)} loadable server(s) among {case['names']!r}", {"connections": len(want)})
             noinit = [l["cmd"] for l in got if not l["init"]]
             if noinit:
                 return (f"no-initialize/{e}", f"{e}: launched {noinit} but never sent initialize", {"launches": want})
@@ -614,10 +656,13 @@ class Entry(Suite):
     def kind(self, case, o):
         if case["expect"] != "valid":
             return f"{case['entry']}/{case['expect']}"
-        sc = case["doc"]["mcpServers"][case["names"][0]]
+        known = [n for n in case["names"] if n in case["doc"]["mcpServers"]]
+        sc = case["doc"]["mcpServers"][known[0]] if known else {}
         env = "absent" if "env" not in sc else ("null" if sc["env"] is None else "empty" if not sc["env"] else "values")
         t = sc.get("timeout")
         tk = ("absent" if "timeout" not in sc else "null") if t is None else type(t).__name__ + ("0" if t in (0, "0", "0.0") else "")
+        if case.get("mixed"):
+            return f"runner/mixed-{case['mixed'] if case['mixed'] != 'directed' else 'directed'}/{len(known)}of{len(case['names'])}-loadable"
         fam = "/bare" if case.get("bare") else ("/family" if is_family(case["doc"]) else "")
         e = case["entry"]
         if e == "cliMain":
